@@ -58,8 +58,62 @@ pub fn run(ctx: &Ctx) -> Report {
     ];
     run_scheds(ctx, &mut rep, &hs);
     short_writes(&mut rep);
+    failed_roll_accounting(&mut rep);
     rep.assume("nobody else writes to the log file; window of 2 archives (the roller itself is C07)");
     rep
+}
+
+/// A roll that fails (a non-empty directory sits at the archive name) leaves the oversized file in place; the
+/// appender reopens it for the next record.  The size shown to the policy must still be the true size.
+fn failed_roll_accounting(rep: &mut Report) {
+    for append in [true, false] {
+        for count in [1u32, 2] {
+            let w = World { append, trig: Trig::Size(25), roller: RollerK::Fixed { base: 0, count, ext: "" }, pre: None, sizes: vec![], multibyte: false, restart: false };
+            let st = w.model_init();
+            let mut real = match w.real_init(&st) {
+                Ok(r) => r,
+                Err((s, d)) => {
+                    rep.violation(s, d, serde_json::json!({"kind": "failed-roll"}));
+                    continue;
+                }
+            };
+            let obstacle = real.sb.path(&w.archive_rel(count - 1)).join("x");
+            let mut history = vec![];
+            for step in 0..10u32 {
+                // the obstacle is in place for records 0..4 (rolls fail), removed afterwards
+                if step == 0 {
+                    std::fs::create_dir_all(&obstacle).unwrap();
+                }
+                if step == 5 {
+                    let _ = std::fs::remove_dir_all(real.sb.path(&w.archive_rel(count - 1)));
+                }
+                real.consults.lock().unwrap().clear();
+                let text = String::from_utf8(payload(step, 10, false)).unwrap();
+                let app = real.appender.as_ref().unwrap();
+                let r = crate::engine::catch_panic(|| {
+                    use log4rs::append::Append;
+                    app.append(&log::Record::builder().level(log::Level::Info).args(format_args!("{}", text)).build())
+                });
+                history.push(format!("append#{}={}", step, match &r { Ok(Ok(())) => "Ok".to_string(), Ok(Err(e)) => format!("Err({})", e), Err(p) => format!("panic({})", p) }));
+                if let Err(p) = r {
+                    rep.violation(format!("failed-roll:panic:{}", crate::engine::panic_site(&p)), format!("{}: {:?}", w.describe(), history), serde_json::json!({"kind": "failed-roll"}));
+                    break;
+                }
+                let cs = real.consults.lock().unwrap().clone();
+                rep.add("traces_validated_against_impl", 1);
+                for c in cs {
+                    if c.true_len.is_some() && c.true_len != Some(c.seen) {
+                        rep.violation(
+                            "failed-roll:size-accounting:len_estimate-differs-from-file-size",
+                            format!("[{}] {:?}: the policy was shown len_estimate()={} while the active file holds {:?} bytes", w.describe(), history, c.seen, c.true_len),
+                            serde_json::json!({"kind": "failed-roll", "append": append, "count": count}),
+                        );
+                    }
+                }
+            }
+            rep.add("failed_roll_histories", 1);
+        }
+    }
 }
 
 /// Environment deviation: each write(2) of a short history accepts only part of its buffer once.
@@ -109,6 +163,14 @@ fn short_writes(rep: &mut Report) {
 pub fn replay(case: &serde_json::Value) -> Result<(), String> {
     if case["kind"] == "schedule" {
         return replay_sched_case(case);
+    }
+    if case["kind"] == "failed-roll" {
+        let mut rep = Report::new("model_checking");
+        failed_roll_accounting(&mut rep);
+        return match rep.violations().first() {
+            Some(v) => Err(format!("{}: {}", v.signature, v.detail)),
+            None => Ok(()),
+        };
     }
     if case["kind"] == "short-write" {
         let mut rep = Report::new("model_checking");
